@@ -199,5 +199,6 @@ def generate() -> str:
     L.append("theorem bond_token_accepted : bonds.tokenAccepted = true := by decide +kernel")
     L.append("theorem expressible_bond_type_preserved : bonds.expressiblePreserved = true := by decide +kernel")
     L.append("theorem bond_second_cycle_fixed : bonds.bondCycleFixed = true := by decide +kernel")
+    L.append("theorem bond_token_prefix_free : bonds.prefixFree = true := by decide +kernel")
     L.append("\nend Molli.Gen.Mol2Types\n")
     return "\n".join(L)
